@@ -381,6 +381,7 @@ class Exec:
         self.max_paths = 2000
         self.merge_calls = True
         self.pure_cache = {}
+        self.switch_cache = {}
         self.path = None
         self.fns_reached = set()
         from . import models as _m
@@ -413,7 +414,7 @@ class Exec:
             raise Unsupported('solver unknown in feasibility check')
         return r == z3.sat
 
-    def choose(self, alts):
+    def choose(self, alts, free_var=None):
         """alts: list of Bool conditions, mutually exclusive and exhaustive. Returns chosen index; forks others."""
         P = self.path
         if P.pos < len(P.prefix):
@@ -422,7 +423,13 @@ class Exec:
             P.taken.append(i)
             P.pc.append(alts[i])
             return i
-        live = [i for i, c in enumerate(alts) if self.feasible(c)]
+        if free_var is not None and not P.pc and not self.assumptions:
+            # the switched value is an unconstrained variable: every listed value is feasible, 'otherwise' too unless all values are listed
+            live = list(range(len(alts) - 1))
+            if len(alts) - 1 < (1 << min(free_var.size(), 30)):
+                live.append(len(alts) - 1)
+        else:
+            live = [i for i, c in enumerate(alts) if self.feasible(c)]
         if not live:
             raise PathEnd('infeasible')
         for i in live[1:]:
@@ -1336,17 +1343,25 @@ class Exec:
                     return b
             return tg['otherwise']
         d = simp(d)
-        alts = []
-        neg = []
-        targets = []
-        for v, b in tg['branches']:
-            cond = d == BV(v, d.size())
-            alts.append(cond)
-            neg.append(d != BV(v, d.size()))
-            targets.append(b)
-        alts.append(z3.And(*neg) if len(neg) > 1 else neg[0])
-        targets.append(tg['otherwise'])
-        i = self.choose(alts)
+        ck = (id(sw), d.get_id())
+        ent = self.switch_cache.get(ck)
+        if ent is None:
+            alts = []
+            neg = []
+            targets = []
+            for v, b in tg['branches']:
+                cond = d == BV(v, d.size())
+                alts.append(cond)
+                neg.append(d != BV(v, d.size()))
+                targets.append(b)
+            alts.append(z3.And(*neg) if len(neg) > 1 else neg[0])
+            targets.append(tg['otherwise'])
+            fv = d if (z3.is_const(d) and d.decl().kind() == z3.Z3_OP_UNINTERPRETED and len(set(v for v, _ in tg['branches'])) == len(tg['branches'])) else None
+            ent = (alts, targets, fv, d)   # d kept alive so its ast id is not reused
+            if len(alts) > 8:
+                self.switch_cache[ck] = ent
+        alts, targets, fv, _ = ent
+        i = self.choose(alts, fv)
         return targets[i]
 
     def do_call(self, fr, fn, bb, c):
